@@ -136,6 +136,8 @@ def impl_tree(src):
             return "(%s %s %s)" % (nop.OpToStr(e.GetOperation()), sx(e.GetLeft()), sx(e.GetRight()))
         if isinstance(e, A.PrimaryExpression):
             return e.GetName()
+        if isinstance(e, A.LiteralExpression):
+            return repr(e.GetValue())
         return "?" + type(e).__name__
     return sx(found[0]) if found else "no-expression"
 
@@ -162,6 +164,21 @@ def cases(run):
             yield rng.choice(sh3[1:])(o), rng.choice(LAYOUTS)
     for _ in range(20000 if thorough else 2500):
         yield random_chain(rng), rng.choice(LAYOUTS + ["mix"])
+    # operands that are LITERALS (ints, negative ints — one token in this language —, floats with exponents): the grouping must not
+    # depend on what kind of operand stands between the operators
+    lits = ["1", "7", "-7", "-1", "2.5", "1.0", "1e+20", "3"]
+    for o in itertools.product(OPS, repeat=2):
+        pool = [("a", "7", "3"), ("a", "-7", "3"), ("a", "1e+20", "1.0"), ("2.5", "b", "-1"), ("-7", "3", "c")]
+        for atoms in (pool if thorough else rng.sample(pool, 3)):
+            yield [atoms[0], o[0], atoms[1], o[1], atoms[2]], " "
+            yield [[atoms[0], o[0], atoms[1]], o[1], atoms[2]], " "
+    for _ in range(4000 if thorough else 500):
+        n = rng.choice([2, 3, 4])
+        ch = []
+        for i in range(n + 1):
+            ch.append(rng.choice(lits) if rng.random() < .6 else rng.choice("abc"))
+            if i < n: ch.append(rng.choice(OPS))
+        yield ch, " "
 
 
 def explore(run, widen=1):
